@@ -6,3 +6,4 @@ import LimnoriaModel.C10.Coll
 import LimnoriaModel.C10.Bot
 import LimnoriaModel.C10.Srv
 import LimnoriaModel.C10.Batch
+import LimnoriaModel.C10.Follow
